@@ -57,6 +57,11 @@ CLAIMED = {
         note=PROOF_NOTE + "parser acceptance itself is full_moon's (assumed `construct parses iff an enabling dialect is on`, validated on the matrix only); translator for the std headers is regex-based and trusted.",
         technique="Lean 4 theorems (C16_union, C16_accepts, C16_builtin by decide over a regenerated table) + correspondence with lua_version() and full_moon::parse_fallible",
         design="§4 C16"),
+    "C17": dict(
+        text="Machine-checked proof (Lean 4) over a serde data-model-level model of StandardLibrary's Serialize / Deserialize (flatten + untagged FieldKindSerde with its variant order, skip_serializing_if defaults, the ArgumentType / Required visitors, LuaVersion's Unknown fall-back) that de (ser l) = ok l exactly for the well-formed libraries (C17_roundtrip_iff), that every document that loads yields a well-formed library and therefore re-serialises to something that loads back equal (C17_loaded_wf, C17_reload), and that the v1 upgrade always produces a well-formed library whose YAML loads back to it (C17_upgrade, C17_upgrade_roundtrip); the model is tied to the code by differential runs of to_value / from_value / From<v1::StandardLibrary> on generated, shipped and malformed inputs, and the text layer is covered by executing the real YAML text round trip, `selene upgrade-std` and the CLI on every run.",
+        note=PROOF_NOTE + "YAML / TOML text emission and parsing is serde_yaml's / toml's (not modelled; real text round trip executed instead); the only library values excluded by the hypothesis are LuaVersion::Unknown(<known name>), which no file can produce (executed on the real code: they reload as the known version).",
+        technique="Lean 4 theorems (C17_roundtrip, C17_roundtrip_iff, C17_loaded_wf, C17_reload, C17_ser_injective, C17_upgrade, C17_upgrade_roundtrip, C17_lookup_preserved) + value-level correspondence (to_value vs ser, from_value vs de on well-formed and malformed documents, upgrade) + real text round trip, upgrade-std binary and CLI diagnostics comparison",
+        design="§4 C17"),
     "C18": dict(
         text="Machine-checked proofs over a validator model of the worker pool: any permutation of the workers' counter additions yields the same totals and exit status (C18_totals, C18_exit), the summary of an accepted trace is the sum of all additions (C18_summary), and everything an accepted trace writes is the in-order concatenation of non-overlapping single-thread lock spans (C18_blocks, C18_span_single_thread). The model is tied to the binary by trace validation (hook events replayed through the model's step function on every run) and by comparing multi-threaded with sequential output.",
         note=PROOF_NOTE + "atomicity of fetch_add, mutual exclusion of the stdout lock and correct placement of the hook events are assumptions; schedules are those reached by repeated execution (under load in thorough).",
